@@ -386,6 +386,9 @@ func runC10(c *core.Ctx) {
 		}
 	}
 	c.Floor("test.globals", 2)
+
+	checkInstrumentWriteBack(c)
+	checkTestTimeTreeWrites(c)
 	_ = all
 }
 
@@ -398,4 +401,207 @@ func blockCalls(b *ssa.BasicBlock, pkg, name string) bool {
 		}
 	}
 	return false
+}
+
+// checkInstrumentWriteBack (test.instr): coverage instrumentation rewrites statement lists in place. Wherever a
+// nested list `N.F` is instrumented, the instrumented list must be stored back into the same `N.F` — if it is
+// spliced in anywhere else the nested statements are executed twice (or not at all) under --coverage only.
+func checkInstrumentWriteBack(c *core.Ctx) {
+	prog := c.Prog
+	inst := prog.SSAFunc("interpreter", "Interpreter.instrumentStatements")
+	if inst == nil {
+		c.MissingAnchor("test.instr", "Interpreter.instrumentStatements")
+		return
+	}
+	sameField := func(a, b *ssa.FieldAddr) bool {
+		if core.FieldOf(a) == nil || core.FieldOf(a) != core.FieldOf(b) {
+			return false
+		}
+		if a.X == b.X {
+			return true
+		}
+		ra, pa := chainOf(a.X)
+		rb, pb := chainOf(b.X)
+		return ra == rb && strings.Join(pa, ".") == strings.Join(pb, ".")
+	}
+	n := 0
+	for _, fn := range prog.ModuleFuncs("interpreter") {
+		for _, b := range fn.Blocks {
+			for _, in := range b.Instrs {
+				call, ok := in.(*ssa.Call)
+				if !ok || call.Common().StaticCallee() != inst {
+					continue
+				}
+				ld, ok := call.Common().Args[1].(*ssa.UnOp)
+				if !ok || ld.Op != token.MUL {
+					continue
+				}
+				src, ok := ld.X.(*ssa.FieldAddr)
+				if !ok {
+					continue
+				}
+				n++
+				key := fmt.Sprintf("%s|%s.%s", core.FnName(fn), core.NamedTypeName(derefType(src.X.Type())), core.FieldOf(src).Name())
+				back := false
+				for _, b2 := range fn.Blocks {
+					for _, i2 := range b2.Instrs {
+						st, ok := i2.(*ssa.Store)
+						if !ok {
+							continue
+						}
+						dst, ok := st.Addr.(*ssa.FieldAddr)
+						if !ok || !sameField(src, dst) {
+							continue
+						}
+						if core.BackSlice(st.Val)[call] || sliceArgFlows(st.Val, call) {
+							back = true
+						}
+					}
+				}
+				if back {
+					c.Discharge("test.instr", key, in.Pos(), "the instrumented list replaces the list it was made from")
+				} else {
+					c.Report("test.instr", key, in.Pos(), fmt.Sprintf("%s instruments the nested statements of %s but does not store the result back into that field: under --coverage the nested statements run twice (hoisted copy plus original) or lose their markers, so a test's verdict differs with and without coverage", core.FnName(fn), key[strings.Index(key, "|")+1:]))
+				}
+			}
+		}
+	}
+	if n < 4 {
+		c.MissingAnchor("test.instr", fmt.Sprintf("instrumentStatements call sites on node fields (found %d)", n))
+	}
+}
+
+// sliceArgFlows: v is built by append(..., call...) or from a variadic slice containing call's result.
+func sliceArgFlows(v ssa.Value, call *ssa.Call) bool {
+	for x := range core.BackSlice(v) {
+		if sl, ok := x.(*ssa.Slice); ok {
+			if al, ok := sl.X.(*ssa.Alloc); ok && al.Referrers() != nil {
+				for _, r := range *al.Referrers() {
+					if ia, ok := r.(*ssa.IndexAddr); ok && ia.Referrers() != nil {
+						for _, rr := range *ia.Referrers() {
+							if st, ok := rr.(*ssa.Store); ok && core.BackSlice(st.Val)[call] {
+								return true
+							}
+						}
+					}
+				}
+			}
+		}
+	}
+	return false
+}
+
+// checkTestTimeTreeWrites (test.treewrite): the testing functions run while a test executes and share the parsed
+// declarations of the whole test file (tables, backends, ACLs) with every other test. They may build new nodes and
+// replace elements of lists they own, but a store into a field of a node they merely received mutates what the next
+// test will see.
+func checkTestTimeTreeWrites(c *core.Ctx) {
+	prog := c.Prog
+	n := 0
+	for _, fn := range prog.ModuleFuncs("tester/function") {
+		for _, b := range fn.Blocks {
+			for _, in := range b.Instrs {
+				st, ok := in.(*ssa.Store)
+				if !ok {
+					continue
+				}
+				fa, ok := st.Addr.(*ssa.FieldAddr)
+				if !ok {
+					continue
+				}
+				owner := core.FieldOwner(fa)
+				if !strings.HasPrefix(owner, astPkgPath+".") {
+					continue
+				}
+				n++
+				key := fmt.Sprintf("%s|%s.%s", core.FnName(fn), strings.TrimPrefix(owner, astPkgPath+"."), core.FieldOf(fa).Name())
+				// whose node is it?  (a) allocated by this activation: fresh; (b) an element taken out of a list or map
+				// of nodes: may be a node shared with the test file's definitions; (c) a parameter: decided at the
+				// call sites — owned by the interpreter context of this test (re-parsed per test) or by the shared
+				// definitions
+				verdict, why := treeOwner(prog, fn, fa.X, 0)
+				switch verdict {
+				case "fresh", "context":
+					c.Discharge("test.treewrite", key, in.Pos(), why)
+				default:
+					c.Report("test.treewrite", key, in.Pos(), fmt.Sprintf("%s writes field %s of a syntax node that %s: the declarations of the test file are shared by all its tests, so the change made for one test is seen by the tests after it (verdicts depend on test order)", core.FnName(fn), key[strings.Index(key, "|")+1:], why))
+				}
+			}
+		}
+	}
+	c.Extra("tester_function_ast_field_stores", n)
+}
+
+// treeOwner classifies the node a field store goes to: "fresh", "context" (reached from the per-test interpreter
+// context), "shared" (reached from the test file's Definiions or taken out of a list of nodes), "unknown".
+func treeOwner(prog *core.Program, fn *ssa.Function, v ssa.Value, depth int) (string, string) {
+	if depth > 4 {
+		return "unknown", "cannot be traced"
+	}
+	switch t := v.(type) {
+	case *ssa.Alloc:
+		return "fresh", "node allocated by this call"
+	case *ssa.FieldAddr:
+		return treeOwner(prog, fn, t.X, depth)
+	case *ssa.UnOp:
+		if t.Op != token.MUL {
+			break
+		}
+		switch a := t.X.(type) {
+		case *ssa.IndexAddr:
+			return "shared", "was taken out of a list of nodes (its elements can be nodes of the shared test-file declarations)"
+		case *ssa.FieldAddr:
+			switch core.NamedTypeName(derefType(a.X.Type())) {
+			case "Context":
+				return "context", "node of the interpreter context built for this test"
+			case "Definiions":
+				return "shared", "belongs to the test file's shared definitions"
+			}
+			return treeOwner(prog, fn, a.X, depth+1)
+		case *ssa.Alloc:
+			return "fresh", "local variable"
+		}
+	case *ssa.Extract:
+		if lk, ok := t.Tuple.(*ssa.Lookup); ok {
+			return treeOwner(prog, fn, lk.X, depth+1)
+		}
+	case *ssa.Lookup:
+		return treeOwner(prog, fn, t.X, depth+1)
+	case *ssa.Parameter:
+		worst, why := "context", "every caller passes a node of the per-test interpreter context"
+		n := 0
+		idx := -1
+		for i, p := range fn.Params {
+			if p == t {
+				idx = i
+			}
+		}
+		for _, caller := range prog.ModuleFuncs("tester") {
+			for _, b := range caller.Blocks {
+				for _, in := range b.Instrs {
+					call, ok := in.(ssa.CallInstruction)
+					if !ok || call.Common().StaticCallee() != fn || idx < 0 || idx >= len(call.Common().Args) {
+						continue
+					}
+					n++
+					v2, w2 := treeOwner(prog, caller, call.Common().Args[idx], depth+1)
+					if v2 != "context" && v2 != "fresh" {
+						worst, why = v2, w2+" (argument at "+prog.Loc(in.Pos())+")"
+					}
+				}
+			}
+		}
+		if n == 0 {
+			return "unknown", "has no visible caller"
+		}
+		return worst, why
+	case *ssa.Phi:
+		for _, e := range t.Edges {
+			if v2, w2 := treeOwner(prog, fn, e, depth+1); v2 != "fresh" && v2 != "context" {
+				return v2, w2
+			}
+		}
+		return "fresh", "all incoming nodes are fresh or context-owned"
+	}
+	return "unknown", "cannot be traced to an owner"
 }
